@@ -641,7 +641,7 @@ class Function(NameAliasMixin, TokenList):
         result = []
         for token in parenthesis.tokens:
             if isinstance(token, IdentifierList):
-                return token.get_identifiers()
+                return list(token.get_identifiers())
             elif imt(token, i=(Function, Identifier, TypedLiteral, Operation,
                                Case, Comparison, Parenthesis),
                      t=[T.Literal, T.Name.Placeholder, T.Wildcard],
